@@ -460,6 +460,25 @@ func ruleNilResult(c *Ctx, r *Rep) {
 			key = "*" + accessKey(ld.X)
 		}
 		for _, g := range guardsOf(b) {
+			// a module predicate `func(v) bool { return v != nil }` applied to the same value
+			if pc, isCall := g.Cond.(*ssa.Call); isCall && g.Truth && len(pc.Call.Args) == 1 {
+				if f := pc.Call.StaticCallee(); f != nil && c.InModule(f) && len(f.Blocks) == 1 && len(f.Params) == 1 {
+					if rets := returnsOf(f); len(rets) == 1 {
+						if hb, ok := retResults(rets[0])[0].(*ssa.BinOp); ok && hb.Op == token.NEQ && hb.X == ssa.Value(f.Params[0]) {
+							if hk, ok := hb.Y.(*ssa.Const); ok && hk.Value == nil {
+								a := pc.Call.Args[0]
+								k2 := accessKey(a)
+								if ld, ok := a.(*ssa.UnOp); ok && ld.Op == token.MUL {
+									k2 = "*" + accessKey(ld.X)
+								}
+								if a == x || (key != "" && key != "*" && k2 == key) {
+									return true
+								}
+							}
+						}
+					}
+				}
+			}
 			bin, ok := g.Cond.(*ssa.BinOp)
 			if !ok {
 				continue
